@@ -34,20 +34,40 @@ DELIVERIES = ("bytes", "bytearray", "memoryview", "bytesio", "bytesio_offset", "
 BOUNDARY = (0, 1, 255, 256, 65535, 65536)
 
 
+class Unbounded(BaseException):
+    """the parser performed more stream operations than any terminating parse of a finite
+    input needs (deterministic stand-in for 'does not terminate'; no wall clock involved)"""
+
+
 class RawSeekable:
-    """minimal seekable binary stream (not an io class)"""
+    """minimal seekable binary stream (not an io class) with an operation budget"""
 
     def __init__(self, data, pos=0):
         self._b = io.BytesIO(data)
         self._b.seek(pos)
+        self._budget = 20000 + 40 * len(data)
+        self._at = {}
+
+    def _tick(self):
+        # a terminating parser makes progress: it reads any one offset only a handful of
+        # times (tokeniser + fickling's re-read); 64 reads of the same offset means a loop
+        pos = self._b.tell()
+        n = self._at.get(pos, 0) + 1
+        self._at[pos] = n
+        self._budget -= 1
+        if n > 64 or self._budget < 0:
+            raise Unbounded()
 
     def read(self, n=-1):
+        self._tick()
         return self._b.read(n)
 
     def readline(self):
+        self._tick()
         return self._b.readline()
 
     def seek(self, pos, whence=0):
+        self._tick()
         return self._b.seek(pos, whence)
 
     def tell(self):
@@ -107,6 +127,18 @@ def check_first(first, trailing, delivery, plain=False, scratch=None):
             return None, "stock-rejects"
         if f.tell() != n:
             return None, "tokenizers-disagree"  # never observed; would make the oracle unsound
+    # pre-flight through the operation-budgeted stream: a parser that does not terminate on
+    # this input is reported deterministically before an un-instrumented delivery is tried
+    try:
+        Pickled.load(RawSeekable(data))
+    except Unbounded:
+        return (
+            Failure(case, f"parsing {first!r} + {trailing!r} does not terminate: unbounded "
+                    "number of stream operations"),
+            "parsed",
+        )
+    except Exception:  # noqa: BLE001
+        pass
     junk = b"\x00JUNK\xff"
     start = 0
     fh = None
@@ -141,6 +173,12 @@ def check_first(first, trailing, delivery, plain=False, scratch=None):
     try:
         try:
             p = Pickled.load(src)
+        except Unbounded:
+            return (
+                Failure(case, f"parsing {first!r} + {trailing!r} ({delivery}) does not terminate: "
+                        "unbounded number of stream operations"),
+                "parsed",
+            )
         except Exception:  # noqa: BLE001
             return None, "refused"
         out = p.dumps()
@@ -185,9 +223,24 @@ def check_stack(parts, delivery="bytes"):
             return None, "not-complete"
     data = b"".join(parts)
     case = {"parts": [x.hex() for x in parts], "delivery": delivery}
-    src = data if delivery == "bytes" else (io.BytesIO(data) if delivery == "bytesio" else NonSeekable(data))
+    if delivery == "bytes":
+        src = data
+    elif delivery == "bytesio":
+        src = io.BytesIO(data)
+    elif delivery == "raw_seekable":
+        src = RawSeekable(data)
+    else:
+        src = NonSeekable(data)
     try:
+        if delivery != "raw_seekable":
+            StackedPickle.load(RawSeekable(data))  # pre-flight, see check_first
         sp = StackedPickle.load(src)
+    except Unbounded:
+        return (
+            Failure(case, f"parsing a stack of {len(parts)} pickles does not terminate: unbounded "
+                    "number of stream operations"),
+            "stack",
+        )
     except Exception:  # noqa: BLE001
         return None, "refused"
     got = [p.dumps() for p in sp]
@@ -306,7 +359,7 @@ def _dumps(v, proto):
 
 
 def shards(tier):
-    per = 300 if tier == "quick" else 4000
+    per = 900 if tier == "quick" else 6000
     out = [{"kind": "first", "n": per, "idx": i} for i in range(12)]
     out += [{"kind": "stack", "n": per, "idx": i} for i in range(4)]
     return out
@@ -344,7 +397,7 @@ def run_shard(spec, seed):
         else:
             strat = st.tuples(
                 st.lists(firsts.map(lambda t: t[0]), min_size=1, max_size=6),
-                st.sampled_from(["bytes", "bytesio", "non_seekable"]),
+                st.sampled_from(["bytes", "bytesio", "raw_seekable", "raw_seekable", "non_seekable"]),
             )
 
             def body(case):
